@@ -1125,7 +1125,13 @@ where
                 if self.read.remain() < 6 {
                     return perr!(self, EofWhileParsing);
                 } else {
-                    self.read.eat(5);
+                    self.read.eat(1);
+                    // the four chars after `\u` must be hex digits
+                    let hex = self.read.next_n(4).unwrap();
+                    let code = unsafe { hex_to_u32_nocheck(&*(hex.as_ptr() as *const [u8; 4])) };
+                    if code > 0xFFFF {
+                        return perr!(self, InvalidEscape);
+                    }
                 }
             }
             Some(c) => {
